@@ -4,7 +4,7 @@
    42-44 for stream chains, the mini stream and the MiniFAT).
 
    Parts
-     1   [DBase], [DInv]; the static theorem [dinv_image_wf] (all 44 rules); the
+     1   [DBase], [DInv]; the static theorem [dinv_image_wf] (all 50 rules); the
          theorem of WfPersist.v (empty streams) as a corollary ([empty_dinv],
          [pinv_image_wf_again]); [Tidy] does not look at start / length
          ([tidy_relen], [tidy_updN_start_len])
@@ -341,6 +341,9 @@ Proof.
   rewrite (wr_name _ _ _ Wr), Hrn, scalars_from_utf16,
           (CodecProofs.from_utf16_utf16 _ CodecProofs.scalar_root_name), CodecProofs.list_eqb_refl.
   cbn [negb]. rewrite (wr_left _ _ _ Wr), (wr_right _ _ _ Wr), RL, RR, N.eqb_refl. cbn [andb negb].
+  assert (H46 : (w_color (went (ver s) root_e) =? COLOR_RED) || (w_color (went (ver s) root_e) =? COLOR_BLACK) = true).
+  { rewrite (wr_color _ _ _ Wr). destruct (d_color root_e); reflexivity. }
+  rewrite H46, (wr_nameok_root _ _ _ Wr Hrt). cbn [negb].
   rewrite (wr_child _ _ _ Wr), Hwalk.
   assert (H31 : forallb (fun '(i, e) => if memN i reach then true else blank_entry e)
                         (index_from (es_of s dids) 0) = true).
@@ -351,6 +354,14 @@ Proof.
     destruct (es_of_nth s dids i we Hwe) as [(e & He & ->)|(_ & ->)]; [|apply blank_went].
     rewrite (Hblank i e He HnU). apply blank_went. }
   rewrite H31. cbn [negb].
+  assert (H48 : forallb (fun '(i, e) => if memN i reach then true else w_namelen e mod 2 =? 0)
+                        (index_from (es_of s dids) 0) = true).
+  { apply forallb_index_from. intros i we Hwe. rewrite N.add_0_l.
+    destruct (memN i reach); [reflexivity|]. apply N.eqb_eq.
+    destruct (es_of_nth s dids i we Hwe) as [(e & He & ->)|(_ & ->)].
+    - exact (wr_namelen_even _ _ _ (went_wrep _ _ (Hwf _ _ He))).
+    - destruct (ver s); vm_compute; reflexivity. }
+  rewrite H48. cbn [negb].
   assert (H32 : forallb (fun '(i, e) => if (w_type e =? OBJ_TYPE_STREAM) && memN i reach
                                    then w_clsid_zero e && (w_ctime e =? 0) && (w_mtime e =? 0) && (w_child e =? NO_STREAM)
                                    else true) (index_from (es_of s dids) 0) = true).
@@ -366,7 +377,30 @@ Proof.
     destruct (CodecProofs.wf_stream _ _ (Hwf _ _ He) Hst) as (Hc & Hg & Hct & Hmt).
     rewrite (wr_clsid _ _ _ W Hg), (wr_ctime _ _ _ W), (wr_mtime _ _ _ W), (wr_child _ _ _ W), Hc, Hct, Hmt.
     reflexivity. }
-  rewrite H32. reflexivity.
+  rewrite H32. cbn [negb].
+  assert (Hsto : forall i we, nthN (es_of s dids) i = Some we ->
+            (w_type we =? OBJ_TYPE_STORAGE) && memN i reach = true -> w_start we = 0 /\ w_len we = 0).
+  { intros i we Hwe Ec.
+    apply andb_true_iff in Ec. destruct Ec as [Ety Em]. apply WalkProofs.memN_In in Em.
+    destruct (MutRefine.NRU_typed _ _ _ _ _ _ _ HN i) as (e & He & _);
+      [eapply Permutation_in; [exact Hperm|exact Em]|].
+    rewrite (es_of_nth_old s dids i e He) in Hwe. injection Hwe as <-.
+    pose proof (went_wrep _ _ (Hwf _ _ He)) as W.
+    rewrite (wr_type _ _ _ W) in Ety.
+    assert (Hst : d_type e = TStorage) by (destruct (d_type e); try discriminate Ety; reflexivity).
+    destruct (CodecProofs.wf_storage _ _ (Hwf _ _ He) Hst) as (Hs0 & Hl0).
+    rewrite (wr_start _ _ _ W), (wr_len _ _ _ W). split; assumption. }
+  assert (H49 : forallb (fun '(i, e) => if (w_type e =? OBJ_TYPE_STORAGE) && memN i reach
+                                   then w_start e =? 0 else true) (index_from (es_of s dids) 0) = true).
+  { apply forallb_index_from. intros i we Hwe. rewrite N.add_0_l.
+    destruct ((w_type we =? OBJ_TYPE_STORAGE) && memN i reach) eqn:Ec; [|reflexivity].
+    apply N.eqb_eq. exact (proj1 (Hsto i we Hwe Ec)). }
+  assert (H50 : forallb (fun '(i, e) => if (w_type e =? OBJ_TYPE_STORAGE) && memN i reach
+                                   then w_len e =? 0 else true) (index_from (es_of s dids) 0) = true).
+  { apply forallb_index_from. intros i we Hwe. rewrite N.add_0_l.
+    destruct ((w_type we =? OBJ_TYPE_STORAGE) && memN i reach) eqn:Ec; [|reflexivity].
+    apply N.eqb_eq. exact (proj2 (Hsto i we Hwe Ec)). }
+  rewrite H49, H50. reflexivity.
 Qed.
 
 Theorem stage_dir_eq' : forall s, DBase s -> Tidy (dirs s) ->
